@@ -6,7 +6,7 @@ from runner.props import PROPS, CLAIMED, NOT_CLAIMED
 ids = [json.loads(l)["id"] for l in open("/verif/properties.jsonl")]
 m = {
     "version": 1,
-    "setup_cmd": "true",
+    "setup_cmd": "sh lean/check.sh > lean/PROVED.tmp 2> lean/check.err; mkdir -p lean/build; mv lean/PROVED.tmp lean/build/PROVED.txt; grep -c PROVED lean/build/PROVED.txt || true",
     "hooks": {
         "guard": "LSST_DAF_RELATION_VERIF",
         "enable": "no hooks: contracts are sidecar files under /verif/contracts; /repo is read (re-parsed on every run), never instrumented",
